@@ -358,25 +358,8 @@ selectmechanism:
 	defer r.Close()
 	d := xml.NewTokenDecoder(r)
 
-	// If we're already done after the first step, decode the <success/> or
-	// <failure/> before we exit.
-	if !more {
-		tok, err := d.Token()
-		if err != nil {
-			return mask, nil, err
-		}
-		if t, ok := tok.(xml.StartElement); ok {
-			// TODO: Handle the additional data that could be returned if
-			// success?
-			_, _, err := decodeSASLChallenge(d, t, false)
-			if err != nil {
-				return mask, nil, err
-			}
-		} else {
-			return mask, nil, errUnexpectedPayload
-		}
-	}
-
+	// Step the mechanism with every <challenge/> until it is done or the server
+	// signals <success/>.
 	success := false
 	for more {
 		select {
@@ -400,7 +383,12 @@ selectmechanism:
 		if more, resp, err = client.Step(challenge); err != nil {
 			return mask, nil, err
 		}
-		if !more && success {
+		if success {
+			if more {
+				// The server claims that authentication is complete, but the
+				// mechanism still expects a challenge: do not trust it.
+				return mask, nil, errUnexpectedPayload
+			}
 			// We're done with SASL and we're successful
 			break
 		}
@@ -413,7 +401,6 @@ selectmechanism:
 			base64.StdEncoding.Encode(encodedResp, resp)
 		}
 
-		// TODO: What happens if there's more and success (broken server)?
 		_, err = xmlstream.Copy(w, xmlstream.Wrap(
 			xmlstream.Token(xml.CharData(encodedResp)),
 			xml.StartElement{
@@ -426,6 +413,26 @@ selectmechanism:
 		err = w.Flush()
 		if err != nil {
 			return mask, nil, err
+		}
+	}
+
+	// If the mechanism finished before the server signaled success (after the
+	// initial response, or on a challenge), the exchange is only complete once
+	// we have read the <success/> (a <failure/> or anything else is an error).
+	if !success {
+		tok, err := d.Token()
+		if err != nil {
+			return mask, nil, err
+		}
+		if t, ok := tok.(xml.StartElement); ok {
+			// TODO: Handle the additional data that could be returned if
+			// success?
+			_, _, err := decodeSASLChallenge(d, t, false)
+			if err != nil {
+				return mask, nil, err
+			}
+		} else {
+			return mask, nil, errUnexpectedPayload
 		}
 	}
 	return Authn, session.Conn(), nil
